@@ -481,7 +481,6 @@ func ruleLeaseDuration() *Rule {
 	}
 }
 
-
 // leaseRenewFns: the functions that store lease.expiration (other than the constructor) and the methods of lease that
 // call them.
 func leaseRenewFns(p *Program) map[*ssa.Function]bool {
@@ -683,7 +682,6 @@ func leaseBase(p *Program, id string, fn *ssa.Function, base ssa.Value) []Obliga
 	return out
 }
 
-
 // instrReaches: is `to` executed after `from` on some path of their function (same block later, or a reachable block)?
 func instrReaches(from, to ssa.Instruction) bool {
 	if from.Block() == to.Block() {
@@ -730,7 +728,6 @@ func (p *Program) callsTransportSend(fn *ssa.Function, seen map[*ssa.Function]bo
 	}
 	return false
 }
-
 
 // leaseStoreGuardedByAfter: the store of the expiration is dominated by the true arm of  new.After(old)  (or the
 // false arm of its negation / of old.After(new) ... only the direct forms are recognised) where new is the stored
